@@ -10,7 +10,7 @@ from props.tapecommon import CaseDir
 GEN_FILES = ["GenDisk"]
 RULE = ("histories of 1 create + 0..5 add invocations over the size-class alphabet {0, 1 sector, 1 block, 1 block+1, tens of blocks, exactly the free space of the current side, "
         "one block more than the free space, larger than a side} and batch shapes {one file, several files, more files than a catalogue holds (113+), --eos}, until sides fill up, "
-        "refusals at every position; both flavours. After EVERY step the real image is decoded by the extracted Spec: fsck_strict on every side, free + used + reserved = 160, "
+        "refusals at every position, catalogue names of earlier steps given again (both entries then live), names that cannot be encoded; both flavours. After EVERY step the real image is decoded by the extracted Spec: fsck_strict on every side, free + used + reserved = 160, "
         "used blocks = the disjoint union of the chains, the files of each side = the files before + the files reported stored there (so a refused file changed nothing: same "
         "catalogue, same contents, free count lowered only by the stored files), every stored file reads back. Each step is also compared with the extracted model. "
         "signature = (flavour, n steps, size classes, flags {refusal-blocks, refusal-catalog, eos, exact-fit, dropped-after-side-3}); non-trivial = a refusal or at least two steps")
@@ -71,7 +71,16 @@ def gen_cases(rng, tier):
                 if "arg" in s and not s["arg"].startswith("m"):
                     b = s["arg"]
                     s["arg"] = (f"{i}" + b)[:8] if "." not in b else (f"{i}" + b.split(".")[0])[:8] + "." + b.split(".", 1)[1]
+        if len(steps) >= 2 and rng.random() < 0.35:
+            # a catalogue name of an earlier step given again later (a newer version of the same file): both entries then live on the side
+            k = rng.randrange(len(steps) - 1)
+            olds = [x["arg"] for x in steps[k] if "arg" in x and not x["arg"].startswith("m")]
+            if olds:
+                steps[rng.randrange(k + 1, len(steps))].insert(0, {"arg": rng.choice(olds), "content": {"rand": rng.randint(0, 1 << 30), "len": rng.choice([0, 1, 300, 2041, 30000])}})
         cases.append({"is_fd": rng.random() < 0.5, "steps": steps, "verbose": rng.random() < 0.25})
+    for is_fd in (True, False):
+        cases.append({"is_fd": is_fd, "verbose": False, "steps": [[{"arg": "prog.dat", "content": {"rand": 8, "len": 5000}}, {"arg": "x.bas", "content": {"hex": "41"}}],
+                                                                  [{"arg": "prog.dat", "content": {"rand": 9, "len": 30000}}], [{"arg": "y.bas", "content": {"hex": "42"}}, {"arg": "PROG.DAT", "content": {"hex": ""}}]]})
     tiny = [{"arg": f"t{k}.d", "content": {"hex": "2a"}} for k in range(112)]
     for is_fd in (True, False):
         cases.append({"is_fd": is_fd, "verbose": False, "steps": [tiny, [{"arg": "big.dat", "content": {"rand": 3, "len": 5000}}], [{"arg": "one.d", "content": {"hex": "31"}}],
@@ -81,7 +90,7 @@ def gen_cases(rng, tier):
         cases.append({"is_fd": is_fd, "verbose": is_fd, "steps": [[{"arg": "a.dat", "content": {"rand": 6, "len": 3000}}],
                                                                    [{"arg": "\u00c9T\u00c9.DAT", "content": {"hex": "414243"}}],
                                                                    [{"arg": "c.dat", "content": {"rand": 7, "len": 300}}, {"arg": "N.\u20ac", "content": {"hex": "31"}}]]})
-    return cases, {"random": n, "fixed": 4}
+    return cases, {"random": n, "fixed": 6}
 
 
 def run_case(case, ctx):
